@@ -36,6 +36,7 @@ def run(ctx):
     ctx.rule(crop)
     ctx.rule(axes)
     ctx.rule(stack)
+    ctx.rule(stack_layout)
 
 
 def _m(prog, cls, name):
@@ -274,25 +275,71 @@ def stack(ctx, R="R-C15-stack"):
     tt = [n for n in f.body_nodes() if isinstance(n, ast.Assign) and astq.is_name(n.targets[0], "T") and "nT" in astq.text(n.value)]
     ctx.check(len(tt) == 1 and astq.eq_text(tt[0].value, "nT*self.num_vectors"), R, f, tt[0] if tt else MISSING(f.node),
               "an incomplete final run is dropped (T := nT * num_vectors)")
-    # N-D path: strided slices i::num_vectors up to T, concatenated along the feature axis in order
-    sl = [n for n in f.body_nodes() if isinstance(n, ast.Assign) and isinstance(n.targets[0], ast.Subscript) and astq.is_name(n.targets[0].value, "feat_slice")]
-    ok = len(sl) == 1 and astq.text(sl[0].targets[0].slice) == "time_axis" and astq.eq_text(sl[0].value, "slice(i,T,self.num_vectors)")
-    ctx.check(ok, R, f, sl[0] if sl else MISSING(f.node), "N-D path: vector i of each run is features[i:T:num_vectors] along time", "N-D slicing is %s" % (astq.text(sl[0]) if sl else None))
-    cat = [r_ for r_ in f.body_nodes() if isinstance(r_, ast.Assign) and isinstance(r_.value, ast.Call) and prog.qualify(f.module, r_.value.func, f) == "numpy.concatenate"]
-    ok = len(cat) == 1 and [astq.text(a) for a in cat[0].value.args] == ["buffs", "axis"]
-    ctx.check(ok, R, f, cat[0] if cat else MISSING(f.node), "N-D path: the runs' vectors are laid side by side along the feature axis, in order")
-    lp = [n for n in f.body_nodes() if isinstance(n, ast.For) and astq.text(n.iter) == "range(self.num_vectors)"]
-    ctx.check(len(lp) == 1, R, f, f.node, "N-D path visits the num_vectors positions in order")
-    # 2-D path: (transpose,) crop, reshape (nT, nF), (transpose back)
-    two = [n for n in f.body_nodes() if isinstance(n, ast.If) and astq.text(n.test).replace(" ", "") == "%s.ndim==2" % feats]
-    ctx.need(len(two) == 1, R, "2-D fast path not found")
-    seq = [astq.text(s_).replace(" ", "") for s_ in two[0].body if not isinstance(s_, ast.If)]
-    ok = seq == ["%s=%s[:T]" % (feats, feats), "%s=%s.reshape(nT,nF)" % (feats, feats)]
-    ctx.check(ok, R, f, two[0], "2-D path: crop to T frames, then reshape to (nT, nF) (C order)", "2-D path statements are %s" % seq)
-    tr = [s_ for s_ in two[0].body if isinstance(s_, ast.If) and astq.text(s_.test) == "time_axis"]
-    ok = len(tr) == 2 and all(astq.text(t.body[0]).replace(" ", "") == "%s=%s.T" % (feats, feats) for t in tr)
-    ctx.check(ok, R, f, two[0], "2-D path: a time axis of 1 is handled by transposing before and after")
+    # (the movement of the data itself - 2-D fast path and N-D path alike - is decided by R-C15-stack-layout)
     init = _m(prog, "Stack", "__init__")
     rs = astq.raises_of(init)
     ok = any(astq.eq_text(a.test, "num_vectors<1") for r_ in rs for a in astq.ancestors(astq.parents(init), r_) if isinstance(a, ast.If))
     ctx.check(ok, R, init, init.node, "num_vectors < 1 is rejected")
+
+
+def stack_layout(ctx, R="R-C15-stack-layout"):
+    """Where every element of Stack.apply's result comes from, for every rank 2..4, every (possibly negative) time axis
+    and feature axis: output[.., t', .., f', ..] must be input[.., t' * k + f' // F, .., f' % F, ..] - the time axis keeps
+    the run number, the feature axis is (position in the run, coefficient) in that order, every other axis is untouched."""
+    from .. import layout as LY
+    prog = ctx.prog
+    f = _m(prog, "Stack", "apply")
+    feats, axisp, inpl = f.params[1], f.params[2], f.params[3]
+    n_cfg = 0
+    reported = set()
+    for rank in (2, 3, 4):
+        for ta_raw in range(-rank, rank):
+            for ax_raw in range(-rank, rank):
+                ta, ax = ta_raw % rank, ax_raw % rank
+                if ta == ax:
+                    continue
+                for in_place in (False, True):
+                    lay = LY.Layout(prog, f, rank, {axisp: ax_raw, inpl: in_place},
+                                    {"time_axis": ta_raw, "num_vectors": LY.Mono.sym("k"), "_pad_mode": None, "_pad_kwargs": {}}, run_axis=ta)
+                    lay.env[feats] = lay.input
+                    cfg = "rank %d, time_axis=%d, axis=%d, in_place=%s" % (rank, ta_raw, ax_raw, in_place)
+                    try:
+                        res = lay.run()
+                    except LY.ScrambledError as e:
+                        key = str(e)
+                        if key not in reported:
+                            reported.add(key)
+                            ctx.bad(R, f, f.node, "for %s: %s" % (cfg, e), "every element of the stacked result comes from the right input element")
+                        continue
+                    except LY.Raised:
+                        ctx.bad(R, f, f.node, "for %s Stack.apply raises although the time and feature axes differ" % cfg, "valid axis combinations are accepted")
+                        continue
+                    n_cfg += 1
+                    want = []
+                    for a in range(rank):
+                        if a == ta:
+                            want.append(((ta, "hi"),))
+                        elif a == ax:
+                            want.append(((ta, "lo"), (ax, "all")))
+                        else:
+                            want.append(((a, "all"),))
+                    if not isinstance(res, LY.Arr):
+                        raise AnalysisError("%s: Stack.apply returns %r for %s" % (R, res, cfg))
+                    if res.axes == want and not res.fixed:
+                        continue
+                    key = (tuple(res.axes), rank, ta, ax)
+                    if key in reported:
+                        continue
+                    reported.add(key)
+
+                    def show(axes):
+                        def dg(d):
+                            if isinstance(d[1], tuple):
+                                return "%s(in%d, %r)" % ("block" if d[1][0] == "blk" else "offset", d[0], d[1][1])
+                            return {"all": "in%d" % d[0], "hi": "run(in%d)" % d[0], "lo": "pos(in%d)" % d[0]}[d[1]]
+                        return "[" + ", ".join("x".join(dg(d) for d in a_) for a_ in axes) + "]"
+                    ctx.bad(R, f, f.node, "for %s the result's axes are %s but stacking requires %s (run = index // num_vectors, pos = index %% num_vectors along "
+                            "the time axis; the feature axis must be position-major): elements end up at the wrong place although the shape is as documented"
+                            % (cfg, show(res.axes), show(want)), "every element of the stacked result comes from the right input element")
+    ctx.floor(R, n_cfg, 100)
+    ctx.ok(R, f.loc(), "%d (rank, time axis, feature axis, in_place) combinations: the result is [.., run, .., (pos, coeff), ..] in every one" % n_cfg)
